@@ -13,6 +13,7 @@ type stageSnap struct {
 	nodes       [][8]int // ref, virtual, layer, pos, x, y, w, h  (coordinates in 1/64, unscaled)
 	edges       [][5]int // from ref, to ref, reversed, points, arrowHeadStart
 	layers      [][]int  // refs in slice order
+	inl, outl   [][]int  // per node (in nodes order): positions in edges (1-based) of n.In / n.Out, in list order
 	layerH      []int
 	exact       bool
 }
@@ -80,6 +81,22 @@ func installStageHook() {
 			}
 			s.edges = append(s.edges, [5]int{refs[ed.From], refs[ed.To], r, len(ed.Points), a})
 		}
+		epos := map[*ig.Edge]int{}
+		for k, ed := range g.Edges {
+			epos[ed] = k + 1
+		}
+		for _, n := range g.Nodes {
+			in := []int{}
+			for _, ed := range n.In {
+				in = append(in, epos[ed]) // 0: an edge that is not in g.Edges (a stripped self-loop)
+			}
+			out := []int{}
+			for _, ed := range n.Out {
+				out = append(out, epos[ed])
+			}
+			s.inl = append(s.inl, in)
+			s.outl = append(s.outl, out)
+		}
 		for _, l := range g.Layers {
 			var row []int
 			for _, n := range l.Nodes {
@@ -119,6 +136,20 @@ func (e *enc) stages(c *Case) {
 		}
 		e.s(`],"layers":[`)
 		for k, l := range s.layers {
+			if k > 0 {
+				e.s(",")
+			}
+			e.ints(l)
+		}
+		e.s(`],"inl":[`)
+		for k, l := range s.inl {
+			if k > 0 {
+				e.s(",")
+			}
+			e.ints(l)
+		}
+		e.s(`],"outl":[`)
+		for k, l := range s.outl {
 			if k > 0 {
 				e.s(",")
 			}
